@@ -552,7 +552,7 @@ fn explore_values(ctx: &Ctx, cnt: &Cnt, r: &Reach, seen_attr: &std::sync::Mutex<
         }
     }
     // attributes: every attribute name the type lists in any version, plus two it does not list
-    let mut names: Vec<AttributeName> = t.attribute_spec_iter().map(|a| a.0).collect();
+    let mut names: Vec<AttributeName> = crate::common::specgraph::attribute_specs(t).into_iter().map(|a| a.0).collect();
     for extra in [AttributeName::Dest, AttributeName::Uuid, AttributeName::T] {
         if !names.contains(&extra) {
             names.push(extra);
@@ -674,6 +674,10 @@ pub fn run(tier: Tier) -> i32 {
         "creation_depth": "2 (3 for content models with few candidates); 1 for very large bags",
         "exhaustive": true,
     });
+    // copies across versions are editing calls too: the destination must be valid in its own version
+    let (cv_pairs, cv_copies) = super::c13::cross_version_copy_with(&ctx, tier, true);
+    ctx.count("cross_version_copy_pairs_checked_for_validity", cv_pairs);
+    ctx.count("cross_version_copy_packages", cv_copies);
     ctx.finish("model_checking", cov)
 }
 
